@@ -1,0 +1,14 @@
+//go:build verif
+// +build verif
+
+package gmtls
+
+// Hook for the verification harness (build tag "verif" only), allocation of the session state parser: the
+// verdict of sessionState.unmarshal on data together with the number of slots of the certificate table it
+// allocated on the way (len(s.certificates) after the call, also when the parser refused the input). Nothing
+// here changes the behaviour of existing code.
+func VerifSessionStateSlots(data []byte) (ok bool, slots int) {
+	s := new(sessionState)
+	ok = s.unmarshal(data)
+	return ok, len(s.certificates)
+}
